@@ -84,6 +84,7 @@ func (x *Exec) explore(entry *ssa.Function, initial []workItem) {
 		x.known = x.known[:0]
 		x.mapOrderNondet = false
 		x.events = x.events[:0]
+		x.files, x.fileSeq, x.waitResult, x.pipeOutput = nil, 0, nil, nil
 		x.rangeSite, x.rangeCount = -1, 0
 		x.frames = x.frames[:0]
 		x.owned = true
